@@ -204,6 +204,7 @@ OTEL_NAMES = ['frames', 'frames_total', 'fps', 'cpu', 'secret', 'det_count', 'a'
 def gen_e2e_case(rng):
     r = rng.random()
     allow = [] if r < 0.2 else ['*'] if r < 0.3 else ['m?n', 'lat?ms', 'frames*'] if r < 0.4 else rng.sample(OTEL_NAMES + PATS + ['f_*', 'f_fps', '*_cpu', 'F_fps'], rng.randint(1, 4))
+    if rng.random() < 0.3: allow = allow + [derived_pattern(rng, OTEL_NAMES)]
     allow = [a for a in allow if ',' not in a and a == a.strip() and a]
     specs, used = [], set()
     for _ in range(rng.randint(0, 5)):
@@ -273,7 +274,16 @@ NAMES = ['frames', 'frames_total', 'fps', 'cpu', 'secret', 'det_count', 'a', 'ab
          'Filter_fps_by_user', 'frames_total_2', 'abcd', 'fpss', 'xfps', 'a1c_more', 'secret2', 'my_secret', 'det_', 'x-yz', 'FPS', 'Frames']
 PATS = ['*', 'frames*', '*_total', 'f?s', 'a*', '[ab]*', '[!a]*', 'det_*', '*fps', 'a[a-c]', 'secret', 'x-?', '[', 'b[[]1]', '*.*', 'nomatch', '[]a]b', 'a?c',
         # entries spelled like an EXPORTED histogram key (the docs list histograms that way): they match instrument names ending in _histogram, nothing else
-        'det_count_histogram', 'frames*_histogram', 'fps_histogram', '*_histogram', 'secret_histogram', 'a_histogram']
+        'det_count_histogram', 'frames*_histogram', 'fps_histogram', '*_histogram', 'secret_histogram', 'a_histogram',
+        # inner star whose literal prefix and suffix OVERLAP in a real name (the name is the pattern with the star contracted): no match
+        'det_*_count', 'ab*bc', 'frames_*_total', 'x-*-y', 'a*a', 'fp*ps', 'm.*.n', 'secret*t']
+
+
+def derived_pattern(rng, names):
+    """a pattern cut out of a real name: prefix name[:j] + '*' + suffix name[i:]; i >= j: the name matches; i < j (prefix and suffix overlap): it does not"""
+    m = rng.choice([n for n in names if len(n) >= 2])
+    j = rng.randint(1, len(m)); i = rng.randint(0, len(m) - 1)
+    return m[:j] + '*' + m[i:]
 
 
 def gen_case(rng):
@@ -281,6 +291,7 @@ def gen_case(rng):
     if r < 0.12: allow = None
     elif r < 0.3: allow = []
     else: allow = rng.sample(NAMES[:-1] + PATS, rng.randint(1, 4))
+    if allow is not None and rng.random() < 0.3: allow.append(derived_pattern(rng, NAMES))
     via = 'ctor' if allow is None else rng.choice(['ctor', 'ctor', 'env', 'file'])
     ms = []
     for _ in range(rng.randint(0, 8)):
